@@ -4,7 +4,7 @@ Three layers (the property has three quantifiers):
  (E) env     - the real EOM.solveWall under a scripted pressure environment, all answer sequences with <= 2 deviations;
      iter    - the real EOM.wallPressure iteration protocol under scripted iterate sequences;
  (L) e2e     - real end-to-end solves (no out-of-equilibrium particles) on a lattice of models/settings, sign change of the
-               pressure probed with a FRESH solver at v -/+ 2 errTol, window, returned auxiliary data;
+               pressure probed with a FRESH solver at v -/+ 1.25 errTol, window, returned auxiliary data;
  (H) history - all call histories up to a depth on one WallGoManager, differential oracle: solveWall(s1) after the history
                is bit-identical to solveWall(s1) on a fresh manager.
 """
@@ -30,7 +30,7 @@ RULE = (
 ASSUMPTIONS = [
     "out-of-equilibrium particles are excluded (the shipped collision files are git-LFS pointers here)",
     "env layer: pressure laws are strictly monotone or single-bump; the environment sets the two solver flags the way the real wallPressure/findPlasmaProfile do (rewritten by every evaluation)",
-    "e2e sign change is probed at v -/+ 2*errTol with a fresh EOM; cases where |P| at the probe is below the pressure-iteration tolerance are inadmissible (sign not decidable)",
+    "e2e sign change is probed at v -/+ 1.25*errTol with a fresh EOM; cases where |P| at the probe is below the pressure-iteration tolerance are inadmissible (sign not decidable)",
     "history layer: identical = bitwise equality of every array/float in the observable result tuple",
 ]
 
@@ -376,6 +376,9 @@ def case_e2e(c: dict) -> dict:
     vmax = min(hyd.vJ, hyd.fastestDeflag())
     solver = m.setupWallSolver(st)  # fresh EOM for the probes
     eom = solver.eom
+    # "every admissible tolerance setting": the configured tolerances are the ones the solver works with
+    r.true("configured-tolerances-reach-the-solver", eom.errTol == c["errTol"] and eom.pressRelErrTol == c["pRel"]
+           and eom.maxIterations == m.config.configEOM.maxIterations, errTol=eom.errTol, pRel=eom.pressRelErrTol)
     from WallGo.containers import WallParams
 
     def P(v, wp=None):
@@ -425,7 +428,9 @@ def case_e2e(c: dict) -> dict:
     vprof = np.asarray(res.velocityProfile, dtype=float)
     r.true("velocity-profile-negative-and-subluminal", np.all(vprof < 0) and np.all(vprof > -1), vmin=float(vprof.min()), vmax=float(vprof.max()))
     # sign change within the absolute velocity tolerance
-    lo, hi = max(v - 2 * errTol, vmin), min(v + 2 * errTol, vmax)
+    # brentq guarantees |v - root| <= xtol = errTol; the pressure noise is tuned by the solver (pressAbsErrTol) to move the
+    # root by ~1% of errTol, so the sign change is probed at 1.25*errTol
+    lo, hi = max(v - 1.25 * errTol, vmin), min(v + 1.25 * errTol, vmax)
     (plo, *_), a1, a2 = P(lo, wp)
     (phi, *_), b1, b2 = P(hi, wp)
     scale = max(abs(plo), abs(phi))
@@ -450,13 +455,13 @@ def e2e_cases(tier):
         dict(model="xsm3", Tn=100.0),
         dict(model="xsm2", Tn=100.0, thermo_tmax=1.01),
     ]
-    full = list(itertools.product(models, (20, 30, 40), (1e-3, 3e-4), (0.1, 0.01), (3.0, 5.0, 8.0)))
+    full = list(itertools.product(models, (20, 30, 40), (1e-3, 3e-4, 1e-4), (0.1, 0.01), (3.0, 5.0, 8.0)))
     if tier == "quick":
         # pairwise-covering subset: every model with every M / errTol / pRel / thickness value at least once
         sel = []
         for i, mdl in enumerate(models):
-            sel.append((mdl, (20, 30, 40)[i % 3], (1e-3, 3e-4)[i % 2], (0.1, 0.01)[(i // 2) % 2], (3.0, 5.0, 8.0)[(i + 1) % 3]))
-            sel.append((mdl, (20, 30, 40)[(i + 1) % 3], (1e-3, 3e-4)[(i + 1) % 2], (0.1, 0.01)[(i // 2 + 1) % 2], (3.0, 5.0, 8.0)[(i + 2) % 3]))
+            sel.append((mdl, (20, 30, 40)[i % 3], (1e-3, 3e-4, 1e-4)[i % 3], (0.1, 0.01)[(i // 2) % 2], (3.0, 5.0, 8.0)[(i + 1) % 3]))
+            sel.append((mdl, (20, 30, 40)[(i + 1) % 3], (1e-3, 3e-4, 1e-4)[(i + 1) % 3], (0.1, 0.01)[(i // 2 + 1) % 2], (3.0, 5.0, 8.0)[(i + 2) % 3]))
         full = sel
     for mdl, M, errTol, pRel, thick in full:
         d = dict(mdl)
